@@ -15,7 +15,7 @@ PROPS = {
   'quick': {'cases': 25600, 'max_size': 200, 'exhaustive': True, 'wall_s': 600},
   'thorough': {'cases': 128000, 'max_size': 400, 'exhaustive': True, 'wall_s': 1800, 'fuzz': {'runs': 150000, 'max_len': 600}},
   'sim': ['simsock'],
-  'essential_classes': ['mode:edit-element', 'edit-element:child-with-long-header-on-short-value', 'edit-element:emptied', 'edit-element:nested-child-edited-while-attached', 'mode:edit', 'edit:element-emptied', 'stream:many-segments', 'tree:overflow-tree', 'element:overflow-tree', 'tree:buf-too-small', 'element:buf-too-small', 'parse:nested-mistiled', 'stream:complete', 'stream:truncated'],
+  'essential_classes': ['element:serialize-options', 'element:overflow-tree:no-move-option', 'parse:raw-value-after-expansion', 'mode:edit-element', 'edit-element:child-with-long-header-on-short-value', 'edit-element:emptied', 'edit-element:nested-child-edited-while-attached', 'mode:edit', 'edit:element-emptied', 'stream:many-segments', 'tree:overflow-tree', 'element:overflow-tree', 'tree:buf-too-small', 'element:buf-too-small', 'parse:nested-mistiled', 'stream:complete', 'stream:truncated'],
   'assumptions': ['reference encoder/decoder in ref/tlv.cpp is correct (self-tested in setup)', 'clang ASan/UBSan report out-of-bounds accesses'],
  }, 'C17': {
   'technique': 'property-based testing (rapidcheck) with exhaustive corruption neighbourhoods against a reference base-32/CRC-32 codec',
@@ -29,7 +29,7 @@ PROPS = {
           'non-trivial (it contains corruptions); distinct = distinct (algorithm, time, string prefix).',
   'quick': {'cases': 3840, 'max_size': 100, 'wall_s': 600},
   'thorough': {'cases': 16000, 'max_size': 100, 'wall_s': 1800},
-  'essential_classes': ['candidates:substitution', 'candidates:transposition', 'candidates:byte-value', 'candidates:algorithm-byte', 'encode:ok'],
+  'essential_classes': ['held-imprint-checked-after-next-decode', 'candidates:substitution', 'candidates:transposition', 'candidates:byte-value', 'candidates:algorithm-byte', 'encode:ok'],
   'assumptions': ['reference base-32 / CRC-32 / algorithm table correct (known-answer self-test)'],
  }, 'C03': {
   'technique': 'property-based testing (rapidcheck) + exhaustive calendar-shape enumeration against a reference chain formula (Crypto++ digests)',
@@ -44,7 +44,7 @@ PROPS = {
           '(correction > 255, start level > 200), calendar strings containing both directions; distinct = distinct descriptor (mode, shape string, levels, times).',
   'quick': {'cases': 25600, 'max_size': 200, 'exhaustive': True, 'wall_s': 900},
   'thorough': {'cases': 200000, 'max_size': 300, 'exhaustive': True, 'wall_s': 3000},
-  'essential_classes': ['setters:valid', 'setters:invalid:correction > 255', 'setters:invalid:level > 255', 'parsed:with-refused-level', 'parsed:has-metadata', 'parsed:has-legacy-id',
+  'essential_classes': ['parsed:aggregate-without-level-output', 'setters:valid', 'setters:invalid:correction > 255', 'setters:invalid:level > 255', 'parsed:with-refused-level', 'parsed:has-metadata', 'parsed:has-legacy-id',
                         'cal:valid-with-alg-switch', 'caltime:valid', 'caltime:impossible', 'shape:too-long', 'list:valid', 'caltime:publication-time>=2^62', 'parsed:metadata-read-through-getters'],
   'assumptions': ['Crypto++ digests are correct', 'publication times below 2^63 (time_t output)'],
  }, 'C05': {
@@ -59,7 +59,7 @@ PROPS = {
           'Non-trivial = at least one composite node (or a fallback) and at least one non-OK outcome; distinct = distinct (tree, outcomes, chain) rendering.',
   'quick': {'cases': 6400, 'max_size': 200, 'exhaustive': True, 'wall_s': 900},
   'thorough': {'cases': 200000, 'max_size': 300, 'exhaustive': True, 'wall_s': 3000},
-  'essential_classes': ['rule-without-verdict', 'end:error', 'end:OK', 'end:NA', 'end:FAIL', 'policies-evaluated:4', 'chain-length:3', 'depth:3'],
+  'essential_classes': ['rule-with-status-message', 'clone-of-policy-with-fallback', 'rule-without-verdict', 'end:error', 'end:OK', 'end:NA', 'end:FAIL', 'policies-evaluated:4', 'chain-length:3', 'depth:3'],
   'assumptions': ['reference interpreter reflects the documented semantics'],
  }, 'C12': {
   'technique': 'coverage-guided fuzzing (libFuzzer, ASan/UBSan) + rapidcheck structure-aware TLV mutation, with per-case allocation accounting',
@@ -75,7 +75,7 @@ PROPS = {
   'quick': {'cases': 9600, 'max_size': 300, 'exhaustive': True, 'wall_s': 900},
   'thorough': {'cases': 160000, 'max_size': 400, 'exhaustive': True, 'wall_s': 3400, 'fuzz': {'runs': 400000, 'max_len': 4096, 'jobs': 16}},
   'leaks': True,
-  'essential_classes': ['option:small-datahash-cache', 'mode:model-signature', 'sig:parsed', 'aggr:parsed', 'ext:parsed', 'pubfile:parsed', 'tlv:parsed', 'element:parsed', 'mode:tree-mutation', 'mode:byte-mutation', 'mode:raw', 'context-reuse-checks'],
+  'essential_classes': ['tlv:serialized-into-caller-buffers', 'option:small-datahash-cache', 'mode:model-signature', 'sig:parsed', 'aggr:parsed', 'ext:parsed', 'pubfile:parsed', 'tlv:parsed', 'element:parsed', 'mode:tree-mutation', 'mode:byte-mutation', 'mode:raw', 'context-reuse-checks'],
   'assumptions': ['only the generated inputs are covered; nothing is claimed for inputs not generated'],
  }, 'C16': {
   'technique': 'model-based property testing (rapidcheck + exhaustive leaf counts) against a reference forest merge and the reference chain formula',
@@ -109,7 +109,7 @@ PROPS = {
           'level overflow). Non-trivial = structural parse succeeded and (some condition violated, or consistent with >= 2 chains or a calendar chain); distinct = distinct (shape, mutation list, violated set).',
   'quick': {'cases': 32000, 'max_size': 300, 'wall_s': 900},
   'thorough': {'cases': 160000, 'max_size': 400, 'wall_s': 3000, 'fuzz': {'runs': 120000, 'max_len': 1500, 'jobs': 16}},
-  'essential_classes': ['expect:OK', 'expect:single-violation', 'expect:multi-violation', 'not-computable', 'violated:INT-1', 'violated:INT-2', 'violated:INT-3', 'violated:INT-4', 'violated:INT-5', 'violated:INT-5-shape-impossible',
+  'essential_classes': ['mut:time-or-index-plus-multiple-of-2^32', 'expect:OK', 'expect:single-violation', 'expect:multi-violation', 'not-computable', 'violated:INT-1', 'violated:INT-2', 'violated:INT-3', 'violated:INT-4', 'violated:INT-5', 'violated:INT-5-shape-impossible',
                         'violated:INT-6', 'violated:INT-7', 'violated:INT-8', 'violated:INT-9', 'violated:INT-10', 'violated:INT-11', 'violated:INT-12', 'violated:INT-13', 'violated:INT-14', 'violated:INT-15', 'violated:INT-17'],
   'assumptions': ['reference evaluation reflects the KSI consistency conditions', 'byte-level mutations of the serialization are covered by C10/C12, not here'],
  }, 'C02': {
@@ -123,7 +123,7 @@ PROPS = {
           'Non-trivial = a hash deviation or a non-zero level; distinct = distinct (API, policy, deviation, bit bucket, level, L0, algorithm).',
   'quick': {'cases': 25600, 'max_size': 200, 'exhaustive': True, 'wall_s': 900},
   'thorough': {'cases': 256000, 'max_size': 300, 'exhaustive': True, 'wall_s': 3000},
-  'essential_classes': ['deviation:bit-flip', 'deviation:other-alg-same-digest', 'deviation:other-alg', 'deviation:level', 'deviation:level>255', 'deviation:combined', 'no-deviation', 'api:verifyWithPolicy+context', 'api:verifyDataHash', 'api:verifyDocument', 'policy:general', 'policy:key', 'ctx-split:level-in-context', 'ctx-split:hash-in-context'],
+  'essential_classes': ['context:verified-cleaned-verified-again', 'ctx:signature-member-points-to-another-signature', 'deviation:bit-flip', 'deviation:other-alg-same-digest', 'deviation:other-alg', 'deviation:level', 'deviation:level>255', 'deviation:combined', 'no-deviation', 'api:verifyWithPolicy+context', 'api:verifyDataHash', 'api:verifyDocument', 'policy:general', 'policy:key', 'ctx-split:level-in-context', 'ctx-split:hash-in-context'],
   'assumptions': ['reference builder produces consistent signatures (checked per case with the reference evaluation)'],
  }, 'C07': {
   'technique': 'model-based property testing (rapidcheck): reference aggregator with a deviation catalogue behind simulated TCP/HTTP transports; returned signatures decoded and evaluated by the reference model',
@@ -137,7 +137,7 @@ PROPS = {
   'quick': {'cases': 32000, 'max_size': 300, 'wall_s': 900},
   'thorough': {'cases': 128000, 'max_size': 400, 'wall_s': 3000},
   'sim': ['simsock', 'fakecurl', 'simclock'],
-  'essential_classes': ['credentials-in-uri:key-with-colon', 'reply:request-echoed-around-unauthenticated-response', 'dev:no-request-id', 'readd:same-handle-added-again', 'api:block-signer', 'reply:chains-not-lowest-first', 'dev:honest', 'dev:foreign-id', 'dev:other-hash', 'dev:status', 'dev:error-pdu', 'dev:error-pdu-status0', 'dev:bad-mac', 'dev:no-mac', 'dev:inconsistent-chains', 'dev:other-pdu-version', 'outcome:success', 'outcome:error',
+  'essential_classes': ['async:signature-requested-twice:level>0', 'credentials-in-uri:key-with-colon', 'reply:request-echoed-around-unauthenticated-response', 'dev:no-request-id', 'readd:same-handle-added-again', 'api:block-signer', 'reply:chains-not-lowest-first', 'dev:honest', 'dev:foreign-id', 'dev:other-hash', 'dev:status', 'dev:error-pdu', 'dev:error-pdu-status0', 'dev:bad-mac', 'dev:no-mac', 'dev:inconsistent-chains', 'dev:other-pdu-version', 'outcome:success', 'outcome:error',
                         'api:async', 'api:signAggregated', 'transport:http', 'transport:tcp', 'pdu:v1', 'pdu:v2', 'untrusted-algorithm'],
   'assumptions': ['simulated sockets / libcurl behave as documented'],
  }, 'C06': {
@@ -152,7 +152,7 @@ PROPS = {
   'quick': {'cases': 19200, 'max_size': 200, 'exhaustive': True, 'wall_s': 900},
   'thorough': {'cases': 96000, 'max_size': 300, 'exhaustive': True, 'wall_s': 3000},
   'sim': ['simsock', 'fakecurl', 'simclock'],
-  'essential_classes': ['request:enclose', 'request:untrusted-alg', 'unmodified', 'altered:rejected', 'path:parse+verify', 'path:blocking-client', 'path:async-service', 'kind:aggregation', 'kind:extension', 'kind:aggr-config', 'kind:ext-config', 'pdu:v1', 'pdu:v2', 'keylen:64', 'keylen:128', 'keylen:129'],
+  'essential_classes': ['history:credentials-replaced:new-key-is-prefix-of-old', 'request:enclose', 'request:untrusted-alg', 'unmodified', 'altered:rejected', 'path:parse+verify', 'path:blocking-client', 'path:async-service', 'kind:aggregation', 'kind:extension', 'kind:aggr-config', 'kind:ext-config', 'pdu:v1', 'pdu:v2', 'keylen:64', 'keylen:128', 'keylen:129'],
   'assumptions': ['reference HMAC correct (known-answer vectors)'],
  }, 'C08': {
   'technique': 'model-based property testing (rapidcheck): reference extender over a coherent simulated calendar with a reply-deviation catalogue; results decoded and evaluated by the reference model',
@@ -166,7 +166,7 @@ PROPS = {
   'quick': {'cases': 32000, 'max_size': 300, 'wall_s': 900},
   'thorough': {'cases': 128000, 'max_size': 400, 'wall_s': 3000},
   'sim': ['simsock', 'fakecurl', 'simclock'],
-  'essential_classes': ['reply:request-echoed-around-forged-response', 'reply:correct', 'reply:wrong-id', 'reply:no-status-wrong-id', 'reply:right-link-altered', 'altered:shared-right-link', 'altered:last-shared-right-link', 'reply:other-input-hash', 'reply:shape-flip', 'reply:other-aggr-time', 'api:async', 'api:extend(pubRec)', 'api:extendTo',
+  'essential_classes': ['altered:input-hash-relabelled-same-digest', 'altered:shared-right-link-relabelled-same-digest', 'reply:request-echoed-around-forged-response', 'reply:correct', 'reply:wrong-id', 'reply:no-status-wrong-id', 'reply:right-link-altered', 'altered:shared-right-link', 'altered:last-shared-right-link', 'reply:other-input-hash', 'reply:shape-flip', 'reply:other-aggr-time', 'api:async', 'api:extend(pubRec)', 'api:extendTo',
                         'src:nocal', 'src:cal+pub', 'src:cal+auth', 'target:earlier', 'target:head', 'outcome:success', 'outcome:error'],
   'assumptions': ['simulated calendar is coherent in the way real calendars are (left subtrees never change)'],
  }, 'C20': {
@@ -181,7 +181,7 @@ PROPS = {
   'quick': {'cases': 48000, 'max_size': 120, 'wall_s': 600},
   'thorough': {'cases': 160000, 'max_size': 150, 'wall_s': 2400},
   'sim': ['simsock', 'fakecurl', 'simclock'],
-  'essential_classes': ['fragment:with-question-mark', 'path:percent-encoded', 'scheme:ksi', 'scheme:ksi+http', 'scheme:ksi+https', 'scheme:ksi+tcp', 'scheme:file', 'scheme:http', 'scheme:x-unknown', 'embedded-credentials', 'mixed-case-scheme', 'host:ipv6', 'port:boundary', 'async-refusal',
+  'essential_classes': ['split:port-absent', 'async-http:second-request-after-the-first-came-back', 'fragment:with-question-mark', 'path:percent-encoded', 'scheme:ksi', 'scheme:ksi+http', 'scheme:ksi+https', 'scheme:ksi+tcp', 'scheme:file', 'scheme:http', 'scheme:x-unknown', 'embedded-credentials', 'mixed-case-scheme', 'host:ipv6', 'port:boundary', 'async-refusal',
                         'service:blocking-aggregator', 'service:blocking-extender', 'service:async-signing', 'service:async-extending', 'explicit:U-', 'explicit:-K', 'explicit:UK', 'explicit:--'],
   'assumptions': ['ports are generated as canonical decimals; percent-encoding in user-info is not generated'],
  }, 'C13': {
@@ -236,7 +236,7 @@ PROPS = {
   'quick': {'cases': 6400, 'max_size': 300, 'wall_s': 900},
   'thorough': {'cases': 64000, 'max_size': 400, 'wall_s': 3000, 'fuzz': {'runs': 40000, 'max_len': 1500, 'jobs': 16}},
   'sim': ['simsock', 'fakecurl', 'simclock'],
-  'essential_classes': ['log:debug-with-failing-logger', 'derive:extend-to-borrowed-record', 'verify:with-user-publications-file', 'shared-verification-context', 'pool:unknown-extension-elements', 'pool:consistent', 'pool:inconsistent', 'pool:legacy', 'history:verifies-with-different-outcomes', 'history:with-derive-operation', 'derive:extended', 'derive:root-level', 'derive:prepended', 'both-cache-configurations'],
+  'essential_classes': ['modified-in-place:chain-prepended', 'shared-verification-context:signature-member-left-over', 'log:debug-with-failing-logger', 'derive:extend-to-borrowed-record', 'verify:with-user-publications-file', 'shared-verification-context', 'pool:unknown-extension-elements', 'pool:consistent', 'pool:inconsistent', 'pool:legacy', 'history:verifies-with-different-outcomes', 'history:with-derive-operation', 'derive:extended', 'derive:root-level', 'derive:prepended', 'both-cache-configurations'],
   'assumptions': ['reference extender is stateless, so fresh-context verifications see the same server behaviour'],
  },
  'C10': {
@@ -275,7 +275,7 @@ PROPS = {
           '(small signed file, byte position, mask). Non-trivial = every structure/trust and byte-change case; lookup cases with at least one record. distinct = distinct descriptor.',
   'quick': {'cases': 24000, 'max_size': 300, 'exhaustive': True, 'wall_s': 900},
   'thorough': {'cases': 400000, 'max_size': 400, 'exhaustive': True, 'wall_s': 3400},
-  'essential_classes': ['find:member', 'find:non-member', 'constraints:empty-file-list-over-context', 'mode:structure-and-trust', 'verified-under-another-context', 'mode:lookup', 'mode:byte-change', 'expect:trusted', 'expect:not-trusted', 'expect:parse-refused', 'signed-range:inexact', 'chain:not-anchored',
+  'essential_classes': ['structure:moved-record-flagged-non-critical', 'find:member', 'find:non-member', 'constraints:empty-file-list-over-context', 'mode:structure-and-trust', 'verified-under-another-context', 'mode:lookup', 'mode:byte-change', 'expect:trusted', 'expect:not-trusted', 'expect:parse-refused', 'signed-range:inexact', 'chain:not-anchored',
                         'constraints:none', 'constraints:mismatch', 'constraint:proper-prefix', 'constraint:empty', 'constraint:extended', 'flip:signed-range', 'flip:signature-value', 'flip:still-parses',
                         'lookup:ties', 'nearest:hit', 'nearest:miss', 'by-time:hit', 'cert-by-id:hit', 'cert-by-id:miss', 'rule-violated:element-after-signature', 'rule-violated:section-out-of-order'],
   'assumptions': ['certificate validity periods are not varied', 'only the generated inputs are covered'],
@@ -297,7 +297,7 @@ PROPS = {
   'quick': {'cases': 32000, 'max_size': 300, 'exhaustive': False, 'wall_s': 900},
   'thorough': {'cases': 600000, 'max_size': 400, 'exhaustive': False, 'wall_s': 3400},
   'sim': ['simsock', 'fakecurl', 'simclock'],
-  'essential_classes': ['extender:aggr-time-omitted', 'policy:user-publication', 'policy:publications-file', 'policy:key', 'policy:calendar', 'policy:general', 'bound:reported-OK', 'observed:OK', 'observed:FAIL', 'observed:NA',
+  'essential_classes': ['time:year-2100-or-later', 'extender:aggr-time-omitted', 'policy:user-publication', 'policy:publications-file', 'policy:key', 'policy:calendar', 'policy:general', 'bound:reported-OK', 'observed:OK', 'observed:FAIL', 'observed:NA',
                         'expect:FAIL:extension-contradicts', 'expect:FAIL:calendar-contradicts', 'expect:FAIL:same-time-other-hash', 'expect:FAIL:file-has-other-hash-for-that-time', 'expect:FAIL:certificate-not-valid-at-aggregation-time,',
                         'expect:FAIL:pki-signature-invalid,', 'expect:inconclusive:extension-failed', 'expect:inconclusive:extending-forbidden', 'expect:inconclusive:publications-file-unavailable',
                         'expect:inconclusive:certificate-not-listed', 'expect:never-ok(internal)', 'extender-contacted', 'publications-file-downloaded', 'extender:error-status-with-chain', 'auth-sig:arbitrary-octets/ec', 'auth-sig:trailing-octet/ec', 'auth-sig:valid/ec', 'auth-sig:cut/rsa'],
@@ -318,7 +318,7 @@ PROPS = {
   'thorough': {'cases': 400000, 'max_size': 100, 'exhaustive': True, 'wall_s': 3400},
   'sim': ['simsock', 'fakecurl', 'simclock'],
   'leaks': True,
-  'essential_classes': ['op:chain-aggregate-same-object-at-two-levels', 'fault:error-returned', 'fault:not-reached', 'op:signature-parse', 'op:sign-tcp', 'op:sign-http', 'op:extend-to-time', 'op:tree-builder', 'op:block-signer', 'op:async-sign', 'op:ha-sign', 'op:list-append-and-reuse', 'op:tlv-parse-nested-clone-serialize'],
+  'essential_classes': ['op:signature-identity-extracted-again', 'op:async-add-request-with-configuration-part', 'op:chain-aggregate-same-object-at-two-levels', 'fault:error-returned', 'fault:not-reached', 'op:signature-parse', 'op:sign-tcp', 'op:sign-http', 'op:extend-to-time', 'op:tree-builder', 'op:block-signer', 'op:async-sign', 'op:ha-sign', 'op:list-append-and-reuse', 'op:tlv-parse-nested-clone-serialize'],
   'assumptions': ['only allocations routed through KSI_malloc/KSI_calloc are failed', 'only the catalogue operations are covered'],
  },
 }
